@@ -939,7 +939,8 @@ _TB_FILES = None
 
 def _tb_name(rng):
     cs = b"abqxyz019_-><.+*[]{}'\"\\/\x80\xff"
-    return bytes(rng.choice(cs) for _ in range(rng.randint(1, 3)))
+    n = rng.randint(1, 3) if rng.random() < 0.85 else rng.choice([15, 16, 17, 33])
+    return bytes(rng.choice(cs) for _ in range(n))
 
 
 def tb_valid(rng, ranked=False):
@@ -979,6 +980,24 @@ def tb_nfa(rng):
     for _ in range(rng.randint(0, 5)):
         out += rng.choice(syms) + b"(" + rng.choice(sts) + b") -> " + rng.choice(sts) + b"\n"
     return out
+
+
+def tb_layout(rng, b):
+    """legal layout variations: indentation-only lines (long enough to live on the heap: short strings are stored inside the
+    std::string object, where an out-of-bounds access is invisible to ASan), trailing blanks, blank runs between tokens"""
+    ls = b.split(b"\n")
+    out = []
+    for ln in ls:
+        if rng.random() < 0.25:
+            out.append(bytes(rng.choice(b" \t") for _ in range(rng.choice([1, 3, 15, 16, 17, 24, 40]))))
+        if rng.random() < 0.3:
+            ln = ln + bytes(rng.choice(b" \t") for _ in range(rng.choice([1, 2, 16, 33])))
+        if rng.random() < 0.2:
+            ln = bytes(rng.choice(b" \t") for _ in range(rng.choice([1, 17, 30]))) + ln
+        if rng.random() < 0.15:
+            ln = ln.replace(b" ", b" " * rng.choice([2, 17, 40]), 1)
+        out.append(ln)
+    return b"\n".join(out)
 
 
 def tb_mutate(rng, b):
@@ -1030,6 +1049,8 @@ def g_parse(rng):
             t = tb_mutate(rng, t)
     else:
         t = tb_valid(rng)
+    if rng.random() < 0.25:
+        t = tb_layout(rng, t)
     return "parse " + t.hex()
 
 
